@@ -36,6 +36,10 @@ line_st = st.one_of(
 
 @st.composite
 def _sidecar(draw):
+    if draw(st.integers(0, 7)) == 0:
+        # a long sidecar: 9-19 KB, still inside the documented first 20 KB
+        n = draw(st.integers(110, 230))
+        return {"lines": ["line %04d of a long sidecar file %s" % (i, "x" * 50) for i in range(n)], "final_nl": draw(st.booleans())}
     lines = draw(st.lists(st.one_of(line_st, line_st, st.just("")), min_size=1, max_size=10))
     while lines and lines[-1] == "":
         lines.pop()
